@@ -161,6 +161,20 @@ def window_and_errors(tier):
                         failures.append(dict(case, problem=f"licence tag {'inside the first 4096 bytes' if inside else 'in a file with a snippet marker'} not read: {sorted(lic)}", replayed=True))
                     elif beyond and not snippet and lic:
                         failures.append(dict(case, problem=f"licence tag starting at byte {start} (beyond the 4096-byte window, no snippet marker) was read: {sorted(lic)}", replayed=True))
+        # the snippet marker anywhere in the file lifts the window: marker placed around every plausible chunk boundary
+        for boundary in (4096, 8192, 16384, 32768, 65536, 131072, 262144, 1048576):
+            for delta in list(range(-17, 2)) if tier == "thorough" or boundary in (4096, 65536) else (-17, -9, -1, 0):
+                cases += 1
+                start = boundary + delta
+                marker = b"# SPDX-SnippetBegin\n"
+                head = ctag + b"# filler line\n" * ((5000 - len(ctag)) // 14) + tag      # licence tag beyond byte 4096
+                if start < len(head):
+                    continue
+                body = head + b"#" * (start - len(head) - 1) + b"\n" + marker + b"# SPDX-SnippetEnd\ntail\n"
+                lic, cop, _ = info_of(body)
+                if lic != {"MIT"}:
+                    failures.append({"marker_starts_at_byte": start + 2, "file_size": len(body), "replayed": True,
+                                     "problem": f"file contains an SPDX snippet marker but the licence tag beyond the 4096-byte window was not read: {sorted(lic)}"})
         for name, data, want in (
                 ("bad.py", b"# SPDX-FileCopyrightText: Jane\n# SPDX-License-Identifier: MIT AND AND\n# SPDX-FileContributor: K\n", (set(), set(), set())),
                 ("bad2.py", b"# SPDX-FileCopyrightText: Jane\n# SPDX-License-Identifier: MIT\n# SPDX-License-Identifier: (\n", (set(), set(), set())),
@@ -180,7 +194,7 @@ def window_and_errors(tier):
     finally:
         shutil.rmtree(d, ignore_errors=True)
     return Bounded("window-and-errors", "licence tag placed at 6 byte offsets around the 4096-byte boundary x 5 filler kinds (LF, CRLF, non-ASCII, "
-                   "CR, long lines) x with / without an SPDX snippet marker; unparseable expressions; .license, CRLF, CR and ignore-block files",
+                   "CR, long lines) x with / without an SPDX snippet marker; snippet marker at every offset -17..+1 around 4 KiB .. 1 MiB boundaries; unparseable expressions; .license, CRLF, CR and ignore-block files",
                    cases, failures[:12], "real reuse_info_of_file on real files")
 
 
